@@ -342,10 +342,11 @@ def _stem_eq(a, b):
 def _ret_name_tuples(f):
     outs = []
     for r in walk_local(f):
-        if isinstance(r, ast.Return) and isinstance(r.value, ast.Tuple) and r.value.elts and all(
+        if isinstance(r, ast.Return) and isinstance(r.value, ast.Tuple) and r.value.elts and sum(
             isinstance(e, (ast.Name, ast.Attribute)) for e in r.value.elts
-        ):
-            outs.append([(e.id if isinstance(e, ast.Name) else e.attr) for e in r.value.elts])
+        ) >= 2:
+            # positions that are not plain names carry no role name ("?" never matches a target)
+            outs.append([(e.id if isinstance(e, ast.Name) else e.attr if isinstance(e, ast.Attribute) else "?") for e in r.value.elts])
     return outs
 
 
